@@ -7,6 +7,8 @@ package mtproto
 // session store, and a reader goroutine that plays the role of startReadingResponses' loop.
 
 import (
+	"bytes"
+	"compress/gzip"
 	"context"
 	"io"
 	"time"
@@ -167,6 +169,30 @@ func nle64(v uint64) []byte { return append(nle32(uint32(v)), nle32(uint32(v>>32
 // rpcResult builds rpc_result#f35c6d01 req_msg_id:long result:Object with an already serialised result
 func rpcResult(reqMsgID int64, result []byte) []byte {
 	return append(append(nle32(objects.CrcRpcResult), nle64(uint64(reqMsgID))...), result...)
+}
+
+// tlBytes is the TL bytes/string encoding written out by hand
+func tlBytes(b []byte) []byte {
+	var out []byte
+	if len(b) < 254 {
+		out = append(out, byte(len(b)))
+	} else {
+		out = append(out, 0xfe, byte(len(b)), byte(len(b)>>8), byte(len(b)>>16))
+	}
+	out = append(out, b...)
+	for len(out)%4 != 0 {
+		out = append(out, 0)
+	}
+	return out
+}
+
+// gzipPacked wraps a serialized object as gzip_packed#3072cfa1 packed_data:bytes
+func gzipPacked(inner []byte) []byte {
+	var buf bytes.Buffer
+	w := gzip.NewWriter(&buf)
+	w.Write(inner)
+	w.Close()
+	return append(nle32(0x3072cfa1), tlBytes(buf.Bytes())...)
 }
 
 func vectorOfLongs(vals []int64) []byte {
